@@ -274,6 +274,9 @@ func needleCensus(c *core.Ctx, rule string, scope []*ssa.Function) int {
 				} else {
 					ob.Fail("the end-of-message tag is matched with %s on %s: only a comparison with the start of the segment read up to the last delimiter recognises tag 10 at a field boundary (110=…, or a value containing 10=, would end the message early)", name, hay)
 				}
+			case an.NameOf(cal) == "HasSuffix" && len(parts) == 3 && isByte(parts[0], 1) && isByte(parts[2], 1) && strings.HasSuffix(parts[1].Atom, ".ToBytes()"):
+				// the trailer test: a whole field, between its delimiters, compared with the end of the buffer
+				c.Ob(rule, an.NameOf(fn), key, call.Pos()).Ok("a whole field with both delimiters compared with the end of the buffer")
 			case shape == "'␁'":
 				c.Check(an.NameOf(cal) == "Index" || an.NameOf(cal) == "IndexByte", rule, an.NameOf(fn), key, call.Pos(), "next delimiter", "the delimiter is located with "+name+": a value ends at the first delimiter after it")
 			default:
